@@ -61,6 +61,7 @@ BASE = dict(
   p_mocap=0.1,
   flags_disable=("refsafe",),
   p_adhesion=0.15,
+  p_surfacevel=0.3,  # geom surface velocity enters the reference velocity of contact rows (extras stream)
 )
 PROFILE_U = gen.profile(geoms=("sphere", "capsule", "ellipsoid"), **BASE)
 PROFILE_X = gen.profile(geoms=("sphere", "capsule", "ellipsoid", "box", "cylinder"), **BASE)
